@@ -41,6 +41,8 @@ SHAPES = {
 OTHERS = {
     "o1": [("r_1", "r", "A>B"), ("q_1", "q", "B>A")],
     "o2": [("r_2", "r", "2A>C")],
+    # two ids of the generator's own pattern in a row: a replacement id generated for the first may be the second's own id
+    "o3": [("r_1", "r", "A>B"), ("r_2", "r", "AB>C")],
 }
 STRS = {"s1": ("A+B>>C | rule=q", "q", "AB>C"), "s2": ("2A>>B", "r", None)}
 FULL = True  # reduced alphabet when False (depth-6 layer)
@@ -285,11 +287,18 @@ def expand(hist):
     from mc.core import quiet
 
     quiet()
-    H0, ref0 = build(hist, REDUCED)
+    try:
+        H0, ref0 = build(hist, REDUCED)
+    except Exception as e:  # a history that was replayable when it was discovered no longer is
+        return [(["replay"], None, [Fail("history_not_replayable", f"{hist}: {type(e).__name__}: {e}", "the same history replays on a fresh object")], False)]
     out = []
     for op in menu(ref0, REDUCED):
         fails = []
-        H, ref = build(hist, REDUCED)
+        try:
+            H, ref = build(hist, REDUCED)
+        except Exception as e:
+            out.append((list(op), None, [Fail("history_not_replayable", f"{hist}: {type(e).__name__}: {e}", "the same history replays on a fresh object")], False))
+            continue
         before = snap(H)
         cpy = H.copy()
         try:
@@ -307,15 +316,21 @@ def expand(hist):
             after = snap(H)
             if op[0] != "copy":
                 f2 = []
-                cpy2, st2 = apply_op(cpy, ref0.clone(), op, f2)
+                try:
+                    cpy2, st2 = apply_op(cpy, ref0.clone(), op, f2)
+                except Exception as e:
+                    cpy2, st2 = cpy, f"{type(e).__name__}: {e}"
                 if st2 != "ok" or snap(cpy2) != after:
                     fails.append(Fail("copy_diverges", f"{op}: copy reaches a different state", "same state as the original"))
                 if snap(H) != after:
                     fails.append(Fail("original_affected", f"{op}: original changed when the copy was edited", "unchanged"))
             # histories interleaved with read-only queries reach the same state and answer the queries identically
-            Hq, refq = build(hist, REDUCED, observing=True)
             fq = []
-            Hq, stq = apply_op(Hq, refq, op, fq)
+            try:
+                Hq, refq = build(hist, REDUCED, observing=True)
+                Hq, stq = apply_op(Hq, refq, op, fq)
+            except Exception as e:
+                Hq, stq = H, f"{type(e).__name__}: {e}"
             if stq != "ok" or snap(Hq) != after or observe(Hq) != observe(H):
                 fails.append(Fail("query_dependent", f"{op}: state/answers differ when read-only queries were interleaved", "queries have no effect"))
             else:
